@@ -28,7 +28,7 @@ Proof. induction pss as [|ps r IH]; intros acc H; cbn [fold_left]; auto. Qed.
 Lemma derived_cache t d : (forall o, d <> DOp o) ->
   t_cache (fst (dstep t d)) = None \/ fst (dstep t d) = t.
 Proof.
-  intros Hd. destruct d as [o|  |ix|k| |ix|keep|l|labels|vals]; cbn [dstep].
+  intros Hd. destruct d as [o|  |ix|k| |ix|keep|l|labels|c old|vals]; cbn [dstep].
   - exfalso. now apply (Hd o).
   - now left.
   - destruct (idx_positions _ ix); [now left | now right].
@@ -38,12 +38,13 @@ Proof.
   - now left.
   - destruct (all_positions _ l); [left | now right]. cbn [fst]. now apply fold_append_cache.
   - now left.
+  - destruct (aget N.eqb c (t_cols t)); [now left | now right].
   - now left.
 Qed.
 
 Theorem dstep_coherent t d : coherent t -> dop_raw_ok (t_idx t) d -> coherent (fst (dstep t d)).
 Proof.
-  intros Hc Hr. destruct d as [o|  |ix|k| |ix|keep|l|labels|vals].
+  intros Hc Hr. destruct d as [o|  |ix|k| |ix|keep|l|labels|c old|vals].
   1: { cbn [dstep dop_raw_ok] in *. now apply step_coherent. }
   all: match goal with |- coherent (fst (dstep ?tt ?d)) =>
          destruct (derived_cache tt d) as [H|H]; [intros o; discriminate | now left | now rewrite H] end.
